@@ -20,6 +20,7 @@ RULE = (
     "summary date-time. Oracle: every observation point equals the instant truncated to that "
     "field's stored resolution (so they are mutually equal at the coarsest common resolution). "
     "Non-trivial: leap year or boundary day or last millisecond."
+    " The decimal-second texts (scene centre, first state vector) carry 3..6 fraction digits. Stage 'in-place-pairs': two products at the same root, one after the other, both judged."
 )
 ASSUMPTIONS = [
     "ISO strings are compared as parsed instants",
